@@ -23,6 +23,7 @@ ASSUMPTIONS = [
     "dask is absent: chunks=None only",
 ]
 BUDGET = {"quick": 100, "thorough": 1200}
+JOBS = {"quick": 4, "thorough": 16}
 
 
 def rpc_strategy(lines):
@@ -56,7 +57,7 @@ def cases(draw, max_lines=48, max_pixels=32):
 
 def plan(tier):
     if tier == "quick":
-        return [{"kind": "hyp", "name": "products", "strategy": cases(), "examples": 150}]
+        return [{"kind": "hyp", "name": "products", "strategy": cases(), "examples": 480}]
     return [
         {"kind": "hyp", "name": "products", "strategy": cases(), "examples": 16 * 1200},
         {"kind": "hyp", "name": "large", "strategy": cases(400, 64), "examples": 16 * 60},
